@@ -221,7 +221,7 @@ reg(Spec("C08", "Props/C08.v", harness="workers", overlay={},
     args_search=["-prop", "C08", "-n", "2"],
     harness_timeout=300,
     assumptions=[
-      "daemon = errgroup over group_workers; a daemon round = one fair round of every worker under the same group context; a returned error or a signal cancels it for good",
+      "daemon = errgroup over group_workers; a daemon round = one fair round of every worker under the same group context; that a returned error or a signal cancels it for good by the end of the round, and that Wait returns non-nil iff a worker failed, is no longer a stated rule of Model/Workers.v alone: every round of the composite (workers + errgroup machine, Model/ErrgroupDaemon.v: a round of every worker, then three fair rounds of the group's own threads) is PROVED to be such a daemon round (C08_errgroup_round_is_dround, C08_errgroup_daemon_simulation / _exit / _fail_stop)",
       "signal delivery, log.Fatalln's status 1, the kernel FIFO and 'buffer full' under load (writer floods 1.2 s, >40k lines vs 10000 slots) are runtime facts observed on the built binary (bound 5 s)",
       "optional HTTP/metrics workers are listed, not modelled; that their flags default to false is generated and proved (C08_optional_workers_off_by_default)",
       "exit status: Workers.exited's 1/0 is tied to func main as interpreted from main.go (C08_exit_status_from_source); log.Fatal* = 1 and os.Exit(n) = n are the interpreter's reading of the standard library"],
